@@ -1141,3 +1141,38 @@ def sp_faithful_col(I, st, args, kwargs):
     else:
         arr = col.fields['values'].arr
     return VBool(d['FAITH'](arr, df.fields['nrows'].t, df.fields['data'].t, comb.arr, comb.length))
+
+
+# ----------------------------------------------------------------------------- sub-sampling quota (C04): hidden non-linear definitions
+_sq_r, _sq_n, _sq_k = z3.Real('sq_r'), z3.Int('sq_n'), z3.Int('sq_k')
+
+
+def _trunc(x):
+    return z3.If(x >= 0, z3.ToInt(x), -z3.ToInt(-x))
+
+
+SPACE_OF = z3.Function('space_of', R_, I_, I_)           # int(r * n)
+QUOTA_OF = z3.Function('quota_of', R_, I_, I_, I_)       # int(int(r * n) / k)
+axiom('space_of.def', z3.ForAll([_sq_r, _sq_n], SPACE_OF(_sq_r, _sq_n) == _trunc(_sq_r * z3.ToReal(_sq_n)),
+                                patterns=[SPACE_OF(_sq_r, _sq_n)]), 'space_of', opaque=True)
+axiom('quota_of.def', z3.ForAll([_sq_r, _sq_n, _sq_k], QUOTA_OF(_sq_r, _sq_n, _sq_k) == _trunc(
+    z3.ToReal(SPACE_OF(_sq_r, _sq_n)) / z3.ToReal(_sq_k)), patterns=[QUOTA_OF(_sq_r, _sq_n, _sq_k)]), 'quota_of', opaque=True)
+
+
+@spec('space_of')
+def sp_space_of(I, st, args, kwargs):
+    return VInt(SPACE_OF(to_term(args[0], 'real'), to_term(args[1], 'int')))
+
+
+@spec('quota_of')
+def sp_quota_of(I, st, args, kwargs):
+    return VInt(QUOTA_OF(to_term(args[0], 'real'), to_term(args[1], 'int'), to_term(args[2], 'int')))
+
+
+@spec('is_integer')
+def sp_is_integer(I, st, args, kwargs):
+    """is_integer(x): the real x has no fractional part (a float cell that holds an integer index)."""
+    v = args[0]
+    if isinstance(v, VInt):
+        return VBool(z3.BoolVal(True))
+    return VBool(z3.IsInt(to_term(v, 'real')))
